@@ -135,5 +135,5 @@ func teardownScenarios(thorough bool) []*engine.SScenario {
 			teardownScenario("disc:A", []string{"unbind:B:e1f1:L2lc:d", "bind:B:e1f2:L2lc:lc:d"}, []string{"write:B:e1f2:L2lc:limit:ack:2"}),
 			teardownScenario("entrm:A:1", []string{"sub:B:e2f1:L2lc:lc:d", "unsub:B:e1f1:L1lc:d"}, []string{"set:L1lc:2", "set:L2lc:2"}))
 	}
-	return scs
+	return append(scs, pairMatrix("C10", thorough)...)
 }
